@@ -184,8 +184,16 @@ pub struct Recipe {
 
 const LAYER_NAMES: [&str; 8] = ["background", "B", "x y", "fore.ground", "CON", "Sketch 1", "a_b", "Zz"];
 const GLYPH_NAMES: [&str; 10] = ["a", "A", "b", "space", "a.alt", "A_", "f_i", "Aacute", "zero", "x"];
-const DATA_KEYS: [&str; 8] = ["a.txt", "b.bin", "d/e.bin", "d/f/g", "com.x/y.plist", "d/h.txt", "Z", "q/r/s/t.dat"];
-const IMAGE_KEYS: [&str; 4] = ["i.png", "j.png", "K.PNG", "l"];
+pub const DATA_KEYS: [&str; 14] = [
+    "a.txt", "b.bin", "d/e.bin", "d/f/g", "com.x/y.plist", "d/h.txt", "Z", "q/r/s/t.dat", "NOEXT", ".dot/.file",
+    "sp ace/f ile.txt", "\u{dc}n\u{ef}/c\u{f6}d\u{e9}.bin", "deep/er/and/deeper/x.Y.Z", "Thumbs.db",
+];
+/// image file names as they occur: any case of the extension, none, another one, a leading dot,
+/// spaces, non-ASCII (the image store tracks every plain file of images/)
+pub const IMAGE_KEYS: [&str; 12] = [
+    "i.png", "j.png", "K.PNG", "l", "Cover.Png", "thumb", "scan.jpg", ".hidden.png", ".DS_Store", "with space.png",
+    "bild\u{e9}.png", "SCAN.PNG",
+];
 
 impl Recipe {
     pub fn plain() -> Recipe {
